@@ -211,16 +211,19 @@ def lookthrough_family(ctx):
     A, B, C, D, E = [(5, ()), (6, ()), (7, ()), (8, ()), (9, ())]
     fixed = [([(11, (D, A))], True, False), ([(11, (D, D))], True, False), ([(11, (A, A))], True, False), ([(11, (B, C))], True, True),
              ([(11, (A, A))], False, True), ([(10, (D,))], True, True), ([(11, (E, A))], True, True), ([(11, (D, E)), (12, (B,))], True, True),
-             ([(10, (B,)), D], False, True), ([(11, (D, D))], True, True)]
-    n = 5 if ctx.tier == "quick" else len(fixed)
-    for k, (listed, top, bottom) in enumerate(fixed[:3] + rng.sample(fixed[3:], n - 3)):
+             ([(10, (B,)), D], False, True), ([(11, (D, D))], True, True),
+             ([B, (12, (B,))], True, False), ([C, E, (12, (C,))], True, True)]
+    n = 6 if ctx.tier == "quick" else len(fixed)
+    for k, (listed, top, bottom) in enumerate(fixed[:3] + fixed[-2:] + rng.sample(fixed[3:-2], max(0, n - 5))):
         # operators that produce and consume the listed types, plus random ones
         x = ('v', 0)
         opdecls = [(X.OPNAMES[i], {"nvars": 0, "nwild": 0, "body": X.fun(rng.choice([A, B, C, D, E]), t), "constraints": []}) for i, t in enumerate(listed)]
         opdecls.append((X.OPNAMES[len(opdecls)], {"nvars": 1, "nwild": 0, "body": X.fun(x, x), "constraints": []}))
         opdecls.append((X.OPNAMES[len(opdecls)], {"nvars": 0, "nwild": 0, "body": X.fun(listed[0], rng.choice([A, D])), "constraints": []}))
         ctx.count("lookthrough_languages")
-        language_cases(ctx, ("lt", k), spec, ops, opdecls, listed + [A, B, C, D, E], top, bottom, 8 if ctx.tier == "quick" else 20)
+        # (all base types canonical, except where the canon lists a non-root base type on purpose: then its parent stays out)
+        rest = [] if (not listed[0][1]) else [A, B, C, D, E]
+        language_cases(ctx, ("lt", k), spec, ops, opdecls, listed + rest, top, bottom, 8 if ctx.tier == "quick" else 20)
 
 
 def one_case(ctx, li, spec, ops, opdecls, lang, canon, listed, top, bottom, tree, ninputs, bits):
